@@ -55,6 +55,10 @@ func badSpecs(dim int) []string {
 	return []string{
 		fmt.Sprintf("%d.%d.1", 2, 1), "-1.1.1", fmt.Sprintf("%d.%d.1", dim, dim+1),
 		fmt.Sprintf("%d.%d.1", dim+1, dim+2), "0.3.0", "-2.-1.1", "1.0.0",
+		// single indices outside the axis: negative, one past the end
+		"-1.0.0", "-2.-1.0", fmt.Sprintf("%d.%d.0", dim, dim+1), fmt.Sprintf("-%d.-%d.0", dim, dim-1),
+		// ranges with a negative end or a negative step
+		"0.-1.1", fmt.Sprintf("0.%d.-1", dim), fmt.Sprintf("%d.0.-1", dim),
 	}
 }
 
